@@ -22,10 +22,12 @@
          lists of live arguments (D6's symptom), for any SAT answer;
      (3) cache (D10): a certificate served from the cache of the preferred solver is a NO
          certificate that omits the queried argument.
+     (4) the clause templates themselves are a correct encoding of complete / stable semantics
+         (soundness and completeness, any framework, any variable assignment);
    NOT YET PROVED: the clause-set invariant (current assumptions + clause set == encoding of the
    current framework, dead variables independent), hence statuses and certificates; the
    assumptions-on-attacks tables.  See NOTES-dyn.md. *)
-From Crusta Require Import Model.Dynamic Proofs.DynDefs Proofs.DynProofs.
+From Crusta Require Import Model.Dynamic Proofs.DynDefs Proofs.DynProofs Proofs.DynEnc.
 
 Section C08.
 Variable L : Type.
@@ -127,6 +129,77 @@ Proof. exact (DynProofs.pr_cache_sound L leqb leqb_spec). Qed.
 
 End C08.
 
+(* (4) the clause templates of the dynamic encoder are a correct encoding (the analogue of C10 for
+   add_attacks_to_constraints_for_{complete,stable}_semantics).  For ANY framework given by its live
+   ids and attacker lists (DynEnc.tF), any positive variables av / selectors sel (the attacker
+   disjunction variable of a being 1 + av a, as the table invariant (2) guarantees), and any valuation:
+   if every live argument's group is satisfied under true selectors, the arguments whose variable is
+   true form a complete (stable) extension; conversely every complete (stable) extension has a model
+   that makes all selectors true, provided the variables in use are pairwise distinct (which (2)
+   provides).  NOT proved: that the clause set of the SAT session IS the union of these groups for the
+   current framework plus constraints over dead variables only (the history part). *)
+Theorem C08_complete_template_sound_partial :
+  forall (ids : list nat) (atk : nat -> list nat),
+  (forall a b, In a ids -> In b (atk a) -> In b ids) ->
+  forall av sel : nat -> nat, (forall a, 0 < av a) -> (forall a, 0 < sel a) ->
+  forall m : val,
+  (forall a, In a ids -> m (sel a) = true) ->
+  (forall a, In a ids -> vmodels m (co_group atk av sel a) = true) ->
+  co (tF ids atk) (S_of ids av m).
+Proof. exact DynEnc.co_template_sound. Qed.
+
+Theorem C08_complete_template_complete_partial :
+  forall (ids : list nat) (atk : nat -> list nat),
+  (forall a b, In a ids -> In b (atk a) -> In b ids) ->
+  forall av sel : nat -> nat, (forall a, 0 < av a) -> (forall a, 0 < sel a) ->
+  (forall a b, In a ids -> In b ids -> av a = av b -> a = b) ->
+  (forall a b, In a ids -> In b ids -> av a <> S (av b)) ->
+  (forall a b, In a ids -> In b ids -> sel a <> av b) ->
+  (forall a b, In a ids -> In b ids -> sel a <> S (av b)) ->
+  forall X, co (tF ids atk) X ->
+  (forall a, In a ids -> vmodels (model_of ids atk av X) (co_group atk av sel a) = true) /\
+  (forall a, In a ids -> model_of ids atk av X (sel a) = true) /\
+  (forall a, In a ids -> model_of ids atk av X (av a) = true <-> In a X).
+Proof. exact DynEnc.co_template_complete. Qed.
+
+Theorem C08_stable_template_sound_partial :
+  forall (ids : list nat) (atk : nat -> list nat),
+  (forall a b, In a ids -> In b (atk a) -> In b ids) ->
+  forall av sel : nat -> nat, (forall a, 0 < av a) -> (forall a, 0 < sel a) ->
+  forall m : val,
+  (forall a, In a ids -> m (sel a) = true) ->
+  (forall a, In a ids -> vmodels m (st_group atk av sel a) = true) ->
+  st (tF ids atk) (S_of ids av m).
+Proof. exact DynEnc.st_template_sound. Qed.
+
+Theorem C08_stable_template_complete_partial :
+  forall (ids : list nat) (atk : nat -> list nat),
+  (forall a b, In a ids -> In b (atk a) -> In b ids) ->
+  forall av sel : nat -> nat, (forall a, 0 < av a) -> (forall a, 0 < sel a) ->
+  (forall a b, In a ids -> In b ids -> av a = av b -> a = b) ->
+  (forall a b, In a ids -> In b ids -> sel a <> av b) ->
+  forall X, st (tF ids atk) X ->
+  (forall a, In a ids -> vmodels (st_model_of ids av X) (st_group atk av sel a) = true) /\
+  (forall a, In a ids -> st_model_of ids av X (sel a) = true) /\
+  (forall a, In a ids -> st_model_of ids av X (av a) = true <-> In a X).
+Proof. exact DynEnc.st_template_complete. Qed.
+
+(* the hypotheses of (4) are satisfiable: a <-> b with variables 1, 3 (disjunction 2, 4), selectors 5, 6 *)
+Example C08_template_hypotheses_satisfiable :
+  let ids := [0; 1] in let atk := fun a => [1 - a] in
+  let av := fun a => 2 * a + 1 in let sel := fun a => 5 + a in
+  (forall a b, In a ids -> In b (atk a) -> In b ids) /\
+  (forall a, 0 < av a) /\ (forall a, 0 < sel a) /\
+  (forall a b, In a ids -> In b ids -> av a = av b -> a = b) /\
+  (forall a b, In a ids -> In b ids -> av a <> S (av b)) /\
+  (forall a b, In a ids -> In b ids -> sel a <> av b) /\
+  (forall a b, In a ids -> In b ids -> sel a <> S (av b)).
+Proof.
+  cbv zeta. repeat split; try (intros; lia).
+  all: intros a b Ha Hb; cbn in Ha; destruct Ha as [<-|[<-|[]]]; cbn in Hb;
+    repeat (destruct Hb as [<-|Hb]); try destruct Hb; cbn; auto; lia.
+Qed.
+
 (* the hypotheses are satisfiable *)
 Example C08_reach_inhabited :
   exists s, reach nat Nat.eqb KPr s ((([] ++ [OpNewArg 1]) ++ [OpNewArg 2]) ++ [OpNewAtt 1 2]).
@@ -146,3 +219,7 @@ Print Assumptions C08_split_covers_live_partial.
 Print Assumptions C08_extension_of_assignment_partial.
 Print Assumptions C08_fresh_certificate_wellformed_partial.
 Print Assumptions C08_preferred_cache_sound_partial.
+Print Assumptions C08_complete_template_sound_partial.
+Print Assumptions C08_complete_template_complete_partial.
+Print Assumptions C08_stable_template_sound_partial.
+Print Assumptions C08_stable_template_complete_partial.
